@@ -347,6 +347,15 @@ theorem independent_inputs_zero (p : Prog R) (hp : p.WellScoped) (hd : DivOK p) 
 example : Prog.isInput ([.var, .const 3, .var, .arith .mul 0 1] : Prog R) 2 = true := rfl
 example : (Prog.reach ([.var, .const 3, .var, .arith .mul 0 1] : Prog R) 2).getD 3 false = false := rfl
 
+/-- **`Sum` is "the same as adding a bunch of Record types together"** (its documentation): in any
+    state, for any items (constants, variables, several tapes), summing is adding the items one
+    after another with `+` to a running total that starts as the constant zero — same numbers,
+    same tape entries, same panic and same entries left behind when an item of another tape
+    arrives. -/
+theorem sum_is_repeated_addition (items : List (Rec R)) (w : World R) :
+    Rec.sum items w = addLoop items (Rec.constant 0) w :=
+  sumLoop_eq_addLoop items _ w
+
 /-- **The array-backed evaluation used for large cases is the model.**  The drivers answer cases
     with tens of thousands of tape entries with the `Array` functions of Model/TapeFast.lean (the
     list-based definitions are quadratic); they compute exactly the functions the theorems above
